@@ -815,6 +815,12 @@ func (l *Loader) mergeResult(fetchItem *FetchItem, res *result, items []*astjson
 	}
 
 	if len(items) == 0 {
+		if len(fetchItem.FetchPath) != 0 {
+			// A nested fetch whose fetch path selected no item (null or absent ancestor, empty parent list)
+			// has nowhere to merge. Only a root fetch may replace the response tree: doing it here would drop
+			// everything the other fetches merged so far.
+			return nil
+		}
 		// If the data is set, it must be an object according to GraphQL over HTTP spec
 		if responseData.Type() != astjson.TypeObject {
 			return l.renderErrorsFailedToFetch(fetchItem, res, invalidGraphQLResponseShape)
